@@ -13,6 +13,7 @@ import Nuts.Driver.ListDS
 import Nuts.Driver.DB
 import Nuts.Driver.Codec
 import Nuts.Driver.Modes
+import Nuts.Driver.Fuzz
 open Nuts Nuts.Driver
 
 inductive SuiteSt where
@@ -21,12 +22,14 @@ inductive SuiteSt where
   | db (s : DBSuite.St)
   | codec
   | modes (s : ModesSuite.St)
+  | fuzz
 
 def freshSuite (name : String) : SuiteSt :=
   match name with
   | "list-ds" => .listDS {}
   | "codec" => .codec
   | "modes" => .modes {}
+  | "api-fuzz" => .fuzz
   | _ => if name.startsWith "db" then .db {} else .none
 
 def stepSuite (s : SuiteSt) (cmd impl : String) : SuiteSt × Verdict :=
@@ -36,6 +39,7 @@ def stepSuite (s : SuiteSt) (cmd impl : String) : SuiteSt × Verdict :=
   | .db st => let (st', v) := DBSuite.step st cmd impl; (.db st', v)
   | .codec => (s, (CodecSuite.step () cmd impl).2)
   | .modes st => let (st', v) := ModesSuite.step st cmd impl; (.modes st', v)
+  | .fuzz => (s, FuzzSuite.step cmd impl)
 
 def renderVerdict (lineno : Nat) (cmd impl : String) (v : Verdict) : String :=
   let m := if v.model == impl then "M" else "m"
